@@ -96,6 +96,12 @@ type pendingProbe struct {
 	activity           int64
 }
 
+func (w *world) resnapshot() {
+	if w.pending != nil {
+		w.pending.activity = atomic.LoadInt64(&w.activity)
+	}
+}
+
 // checkPending is called before anything new is sent.
 func (w *world) checkPending(cf *CaseFile, im *Impl) {
 	p := w.pending
